@@ -4,11 +4,13 @@ EXTENDS Segmentation, Json, TLCExt, IOUtils, SequencesExt
 MaxBound == IF H * W < 5 THEN H * W ELSE 5
 BoundConfigs == {b \in [minB : 1 .. MaxBound, maxB : 1 .. H * W, minS : 1 .. MaxBound, maxS : 1 .. H * W] :
                    b.minB <= b.maxB /\ b.minS <= b.maxS /\ (b.maxB <= MaxBound \/ b.maxB = H * W) /\ (b.maxS <= MaxBound \/ b.maxS = H * W)}
-RECURSIVE RGS(_, _)
 MaxOf(s) == IF s = <<>> THEN -1 ELSE LET S == {s[i] : i \in DOMAIN s} IN CHOOSE x \in S : \A y \in S : y <= x
-RGS(n, s) == IF Len(s) = n THEN {s} ELSE UNION {RGS(n, Append(s, b)) : b \in 0 .. MaxOf(s) + 1}
+RECURSIVE RgsGrow(_, _)       \* restricted growth strings, level by level
+RgsGrow(n, S) == IF \A s \in S : Len(s) = n THEN S
+                 ELSE RgsGrow(n, TLCEval(UNION {{Append(s, b) : b \in 0 .. MaxOf(s) + 1} : s \in S}))
+AllRGS(n) == RgsGrow(n, {<<>>})
 PartOf(r) == {{c \in Cells : r[c + 1] = b} : b \in {r[i] : i \in DOMAIN r}}
-ConnPartitions == TLCEval({PartOf(r) : r \in {r \in RGS(H * W, <<>>) : \A B \in PartOf(r) : Conn(B)}})
+ConnPartitions == TLCEval({PartOf(r) : r \in {r \in AllRGS(H * W) : \A B \in PartOf(r) : Conn(B)}})
 
 (* every valid value under every bound configuration is an initial state: the invariant is checked from each *)
 Init == bnd \in BoundConfigs /\ P \in {Q \in ConnPartitions : Valid(Q, bnd)}
